@@ -580,7 +580,9 @@ func (r *Reconciler) reconcileAbort(ctx context.Context, transaction *configapi.
 func (r *Reconciler) reconcileApply(ctx context.Context, transaction *configapi.Transaction) (controller.Result, error) {
 	switch transaction.Status.Phases.Apply.State {
 	case configapi.TransactionApplyPhase_APPLYING:
-		allApplied := true
+		// Start the apply phase of every proposal before looking at any outcome: the changes were all committed, and a
+		// proposal that never enters its apply phase would hold back every later change to its target.
+		proposals := make([]*configapi.Proposal, 0, len(transaction.Status.Proposals))
 		for _, proposalID := range transaction.Status.Proposals {
 			proposal, err := r.proposals.Get(ctx, proposalID)
 			if err != nil {
@@ -603,7 +605,11 @@ func (r *Reconciler) reconcileApply(ctx context.Context, transaction *configapi.
 				}
 				return controller.Result{}, nil
 			}
+			proposals = append(proposals, proposal)
+		}
 
+		allApplied := true
+		for _, proposal := range proposals {
 			switch proposal.Status.Phases.Apply.State {
 			case configapi.ProposalApplyPhase_APPLYING:
 				allApplied = false
